@@ -6,7 +6,7 @@ import os
 from . import common as c
 
 SUPPORT = ["Stream/Skip.v", "Stream/Json1.v", "Stream/Dec.v", "Stream/Spec.v", "Stream/Enc.v",
-           "Stream/SkipProofs.v", "Stream/DecProofs1.v", "Stream/DecProofs2.v", "Stream/DecProofs.v",
+           "Stream/SkipProofs.v", "Stream/SkipValid.v", "Stream/DecProofs1.v", "Stream/DecProofs2.v", "Stream/DecProofs.v",
            "Stream/EncProofs.v", "Stream/Witness.v"]
 
 CLAIM = {
@@ -36,6 +36,7 @@ CLAIM = {
 }
 
 KF_NUMRUN = "KF-C17-number-run-before-reader-error"
+KF_OFF = "KF-C17-inputoffset-undercount"
 
 
 def _js(h):
@@ -162,7 +163,7 @@ def run_variant(ctx, hb, mexe, work, tag, env_extra, args, stats, findings):
                     why = "SPEC"
                 if len(fm) > 4 and fm[4] == "G1":
                     stats["guard_holds"] += 1
-                    if fi[4] not in ("ok", "skip", "skip-ctl"):
+                    if fi[4] not in ("ok", "skip", "skip-ctl") and not fi[4].startswith("off"):
                         why = why or ("the guard of C17_stream_chunk_independent_partial holds for this stream, yet the implementation "
                                       "does not produce the specified values (" + fi[4] + ")")
             prop = fi[4]
@@ -177,6 +178,14 @@ def run_variant(ctx, hb, mexe, work, tag, env_extra, args, stats, findings):
                 else:
                     findings.append(("O", "stream decoder disagrees with value-by-value decoding of the same bytes (%s)" % prop,
                                      {"case": describe(cs), "implementation": fi[1], "oracle(values|terminal)": fi[3], "divergence": prop}, True))
+            elif prop.startswith("off"):
+                _, k_, got, lo, hi, ws = prop.split(":")
+                if int(got) < int(lo) and int(lo) - int(got) <= int(ws):
+                    stats["kf"][KF_OFF] += 1
+                    stats["kf_example"].setdefault(KF_OFF, describe(cs))
+                else:
+                    findings.append(("O", "InputOffset() after value %s is %s, outside [end of the value %s, next token %s]" % (k_, got, lo, hi),
+                                     {"case": describe(cs), "implementation": fi[1], "oracle(values|terminal)": fi[3]}, True))
             elif prop == "short":
                 findings.append(("T", "op string too short to reach the terminal condition", {"case": describe(cs)}, False))
         elif kind == "E":
